@@ -246,6 +246,14 @@ def h_plate_observers(h):
     prec = h.env.config.precisions.get(unit, h.env.config.precisions['default'])
     half = Fr(1, 2 * 10**prec)
     water, salt, lip = lib['water'], lib['NaCl'], lib['lipase']
+    # wells that lack one of the substances asked about (B2: no water, A2: no enzyme)
+    del P.wells[1, 1].contents[water]
+    del P.wells[0, 1].contents[lip]
+    set_volume(h, lib, P.wells[1, 1])
+    set_volume(h, lib, P.wells[0, 1])
+
+    def amt(w, s, base):
+        return lib.amount(s, w.contents[s], base) if s in w.contents else 0
 
     def close(got, truth, label, region=''):
         h.require(label, h.eq(got, truth, half + h.rs(h.ulp * 4 * 10**3)), region,
@@ -257,12 +265,18 @@ def h_plate_observers(h):
             for c in range(2):
                 close(got[r, c], lib.total(P.wells[r, c].contents, 'L') / PREFIX[prefix], 'plate.get_volumes')
     elif obs == 'get_volumes_subst':
-        got = P.get_volumes(substance=[water, lip], unit=unit)
+        for order in ([water, lip], [lip, water]):
+            got = P.get_volumes(substance=order, unit=unit)
+            for r in range(2):
+                for c in range(2):
+                    w = P.wells[r, c]
+                    truth = (amt(w, water, 'L') + amt(w, lip, 'L')) / PREFIX[prefix]
+                    close(got[r, c], truth, 'plate.get_volumes(substances)')
+        gots = P[:, 2].get_volumes(substance=[water, lip, salt], unit=unit)
         for r in range(2):
-            for c in range(2):
-                w = P.wells[r, c]
-                truth = (lib.amount(water, w.contents[water], 'L') + lib.amount(lip, w.contents[lip], 'L')) / PREFIX[prefix]
-                close(got[r, c], truth, 'plate.get_volumes(substances)')
+            w = P.wells[r, 1]
+            close(gots[r, 0], (amt(w, water, 'L') + amt(w, lip, 'L') + amt(w, salt, 'L')) / PREFIX[prefix],
+                  'slice.get_volumes(substances)')
         got1 = P[1, :].get_volumes(substance=salt, unit=unit)
         for c in range(2):
             close(got1[0, c], lib.amount(salt, P.wells[0, c].contents[salt], 'L') / PREFIX[prefix],
@@ -272,8 +286,13 @@ def h_plate_observers(h):
         for r in range(2):
             for c in range(2):
                 w = P.wells[r, c]
-                truth = (lib.amount(salt, w.contents[salt], 'mol') + lib.amount(water, w.contents[water], 'mol')) / PREFIX[prefix]
+                truth = (amt(w, salt, 'mol') + amt(w, water, 'mol')) / PREFIX[prefix]
                 close(got[r, c], truth, 'plate.get_moles')
+        got2 = P.get_moles([water, salt], unit=unit)
+        for r in range(2):
+            for c in range(2):
+                w = P.wells[r, c]
+                close(got2[r, c], (amt(w, salt, 'mol') + amt(w, water, 'mol')) / PREFIX[prefix], 'plate.get_moles')
     elif obs == 'get_volume':
         got = P.get_volume(unit)
         # the sum of the four rounded per-well values
